@@ -18,3 +18,55 @@ package index
 //gvc:  loop 2 invariant found: include == exists(b, 0, it2, has_prefix(e.Name, patterns[b]) && (len(e.Name) == len(patterns[b]) || e.Name[len(patterns[b])] == '/'))
 //gvc:  ensures component: forall(a, 0, len(i.Entries), i.Entries[a].SkipWorktree == !exists(b, 0, len(patterns), has_prefix(i.Entries[a].Name, patterns[b]) && (len(i.Entries[a].Name) == len(patterns[b]) || i.Entries[a].Name[len(patterns[b])] == '/')))
 //gvc:end
+
+// Entry padding (git read-cache.c ondisk_ce_size: entries are padded with 1-8
+// NUL bytes to a multiple of 8 in versions 2 and 3; version 4 has none).
+//gvc:func (*Encoder).padEntry
+//gvc:  props C12
+//gvc:  theory int
+//gvc:  results err
+//gvc:  modifies e.w.#wlen, e.w.#wdata
+//gvc:  requires nn: idx != nil && e.w != nil
+//gvc:  requires wrote: 0 <= wrote && wrote <= 0x10000000
+//gvc:  ensures v4: idx.Version == 4 ==> e.w.#wlen == old(e.w.#wlen)
+//gvc:  ensures pad: idx.Version != 4 && err == nil ==> e.w.#wlen - old(e.w.#wlen) == 8 - wrote % 8
+//gvc:  ensures aligned: idx.Version != 4 && err == nil ==> (wrote + (e.w.#wlen - old(e.w.#wlen))) % 8 == 0 && 1 <= e.w.#wlen - old(e.w.#wlen) && e.w.#wlen - old(e.w.#wlen) <= 8
+//gvc:  ensures zeros: idx.Version != 4 && err == nil ==> forall(k, old(e.w.#wlen), e.w.#wlen, e.w.#wdata[k] == 0)
+//gvc:end
+
+// The decoder skips exactly what the encoder padded: `read` header bytes plus
+// the name make the entry size; when the name was NUL-terminated on disk
+// (12-bit length overflow) the terminator already consumed counts as padding.
+//gvc:func (*Decoder).padEntry
+//gvc:  props C12 C53
+//gvc:  theory int
+//gvc:  results err
+//gvc:  modifies d.r.#pos
+//gvc:  requires nn: idx != nil && e != nil && d.r != nil
+//gvc:  requires sizes: 0 <= read && read <= 1024 && len(e.Name) <= nameConsumed && nameConsumed <= len(e.Name) + 1
+//gvc:  ensures v4: idx.Version == 4 ==> d.r.#pos == old(d.r.#pos)
+//gvc:  ensures skip: idx.Version != 4 && err == nil ==> d.r.#pos - old(d.r.#pos) + (nameConsumed - len(e.Name)) == 8 - (read + len(e.Name)) % 8
+//gvc:end
+
+// commonPrefixLen: the length of the longest common prefix (version 4 path
+// compression): everything before it is equal, and the next byte, if both
+// strings have one, differs.
+//gvc:func commonPrefixLen
+//gvc:  props C12
+//gvc:  theory int
+//gvc:  loop 1 invariant eq: forall(k, 0, it1, a[k] == b[k])
+//gvc:  ensures bound: 0 <= result && result <= len(a) && result <= len(b)
+//gvc:  ensures common: forall(k, 0, result, a[k] == b[k])
+//gvc:  ensures maximal: result < len(a) && result < len(b) ==> a[result] != b[result]
+//gvc:end
+
+// doReadEntryNameV4 (safety): the strip length read from the file is validated
+// against the previous name before slicing.
+//gvc:func (*Decoder).doReadEntryNameV4
+//gvc:  props C12 C53
+//gvc:  theory int
+//gvc:  opt coarse
+//gvc:  opt frame args
+//gvc:  opt safety
+//gvc:  requires nn: d.r != nil
+//gvc:end
